@@ -15,7 +15,8 @@ from . import common
 from .common import Inconclusive
 from engine.llsym import Module, Exec, State, is_sym
 
-HARNESS_DIRS = {'llharness': os.path.join(common.VERIF, 'llharness'), 'llharness_cg': os.path.join(common.VERIF, 'llharness_cg')}
+HARNESS_DIRS = {'llharness': os.path.join(common.VERIF, 'llharness'), 'llharness_cg': os.path.join(common.VERIF, 'llharness_cg'),
+                'llharness_diag': os.path.join(common.VERIF, 'llharness_diag')}
 TOOLCHAIN = '1.88'
 BUF = 0x2000_0000
 EXPLORE_CAP_S = {'quick': 600, 'thorough': 4 * 3600}
@@ -289,6 +290,9 @@ def native_call(so, fn, args, ret='c_uint64', timeout=60):
     for line in p.stdout.splitlines():
         if line.startswith('RET '):
             return ('ret', int(line[4:]))
+    if 'cannot open shared object file' in p.stderr or 'OSError' in p.stderr:
+        # the harness library itself could not be loaded (e.g. it is being rebuilt by another run): nothing was observed
+        raise Inconclusive('the harness library %s could not be loaded for a native call: %s' % (so, p.stderr[-200:]))
     return ('died', p.returncode, p.stderr[-400:])
 
 
@@ -352,6 +356,11 @@ def selftest(chk, mod, so, entry, make_concrete, native_args, cases, ret='c_uint
 
 def _selftest(mod, so, entry, make_concrete, native_args, cases, ret, ret_bits):
     nat = native_batch(so, entry, [native_args(c) for c in cases], ret=ret)
+    # a call that dies ends the batch: the cases after it are run again, each in its own child
+    for i in range(len(nat)):
+        if nat[i] is None and any(x is None for x in nat[:i]):
+            r = native_call(so, entry, native_args(cases[i]), ret=ret)
+            nat[i] = r[1] if r[0] == 'ret' else None
     ok = 0
     for c, n in zip(cases, nat):
         ex = Exec(mod)
